@@ -170,7 +170,6 @@ impl Memfs {
         MemfsGuard::Write(self.0.write().unwrap())
     }
 
-    /// Convert the given VfsEntry to a MemfsEntry or fail
     /// Verification hook: create a fully independent copy of this filesystem
     #[cfg(rivia_verif)]
     pub fn verif_deep_clone(&self) -> Memfs {
@@ -236,6 +235,7 @@ impl Memfs {
         }
     }
 
+    /// Convert the given VfsEntry to a MemfsEntry or fail
     #[allow(dead_code)]
     pub(crate) fn downcast(vfs: Vfs) -> RvResult<Memfs> {
         match vfs {
